@@ -314,9 +314,28 @@ class NpProxy(object):
         return getattr(self._real, name)
 
 
+class RealSim(object):
+    """Sentinel seam: leave EoN.simulation's random / np untouched (the real
+    global generators are used; the caller seeds them)."""
+    mode = "real"
+
+    def __init__(self):
+        self.fired = {}
+        self.log = []
+        self.next_clock = None
+        self.pending = None
+        self.pending_raw = None
+
+    def digest(self):
+        return ""
+
+
 @contextmanager
 def installed(sim):
     """Route EoN.simulation's randomness through ``sim`` for one run."""
+    if isinstance(sim, RealSim):
+        yield sim
+        return
     import EoN.simulation as S
     old_r, old_np = S.random, S.np
     S.random = sim
